@@ -18,7 +18,12 @@ EXPLANATION = (
     "radius reads both half extents under a square root (necessary for 'never rejects an overlapping pair'); (R08.7) the "
     "inside/outside predicate of the clipper is a sign test (no tolerance); R08.3 also requires that the working copies "
     "are clones and that Clone never carries the vertex cache (stale polygons after public-field writes). "
-    "(R08.8) polygon generation and clipping compute in f64 (no f32 arithmetic before widening).")
+    "(R08.8) polygon generation and clipping compute in f64 (no f32 arithmetic before widening). (R08.9/R08.10) exact "
+    "formulas, decided by a rational-function normal form of the MIR expressions where the code is straight-line "
+    "arithmetic (otherwise recorded as not evaluated): the polygon handed to the clipper is the box's rectangle rotated "
+    "by +angle about its centre with vertices in boundary order, area() / get_radius() are that rectangle's area and "
+    "circumradius, each IoU equals I / (A_l + A_r - I) identically, and the axis-aligned intersection equals "
+    "(min(right edges) - max(left edges)) * (min(bottoms) - max(tops)).")
 NOT_DECIDED = ["exactness of the clipped area and of the IoU value (f64 geometry)", "symmetry / rigid-motion invariance "
                "as numeric statements", "agreement of the closed form with the general path",
                "soundness of the pre-filter bound as an inequality (only its wiring is decided)"]
@@ -389,6 +394,13 @@ def run(ctx):
     ctx.floor('R08.7', clip_predicate_rule(ctx, 'R08.7'), 1)
     ctx.rule('R08.4', 'axis-aligned closed form: product of the two extents, only when both are positive')
     ctx.floor('R08.4', closed_form_rule(ctx, 'R08.4'), 3)
+    import geomlib
+    ctx.rule('R08.9', 'exact formulas (rational-function normal form): polygon of a box = its rectangle rotated by +angle '
+                      'about the centre, in boundary order; area() and get_radius() are its area and circumradius')
+    ctx.evaluated('R08.9', geomlib.polygon_rule(ctx, 'R08.9') + geomlib.measures_rule(ctx, 'R08.9'), 3)
+    ctx.rule('R08.10', 'exact formulas: IoU == I / (A_l + A_r - I) as a rational function (3 siblings); axis-aligned '
+                       'intersection == (min right - max left) * (min bottom - max top)')
+    ctx.evaluated('R08.10', geomlib.iou_rule(ctx, 'R08.10') + geomlib.extent_rule(ctx, 'R08.10'), 4)
     ctx.rule('R08.5', 'pre-filter wiring: both centres, sum of both radii; radius from both half extents')
     n = C20.r4(ctx, 'R08.5', ('too_far',))
     n += radius_rule(ctx, 'R08.5')
